@@ -132,6 +132,9 @@ mod sign;
 mod sqr;
 mod third_party;
 mod ubig;
+#[cfg(dashu_verif)]
+#[doc(hidden)]
+pub mod verif_probe;
 
 // All the public items from third_party will be exposed
 #[allow(unused_imports)]
